@@ -49,7 +49,8 @@ Record meta_site := {
 
 (* mutations of process-global state (working directory, environment, sys.path, warnings filters, logging configuration,
    recursion limit, locale, stdio) in the analysed modules *)
-Inductive pskind := KCwd | KEnviron | KSysPath | KWarnings | KLogging | KRecursion | KLocale | KStdio.
+Inductive pskind := KCwd | KEnviron | KSysPath | KWarnings | KLogging | KRecursion | KLocale | KStdio
+                  | KModuleAttr.   (* an attribute of another module assigned in a function: a process-wide switch *)
 
 Record proc_site := {
   ps_module : string; ps_func : string; ps_kind : pskind;
